@@ -129,6 +129,8 @@ def reaction_step(rng, tot, k, redox=False, noise_u=None):
 
 
 def gen_problem(rng, big=False):
+    if rng.random() < 0.18:
+        return gen_direct(rng)
     meta = {}
     scen = rng.choices(["chain", "mix", "chain3"], [0.55, 0.25, 0.2])[0]
     redox = rng.random() < 0.18
@@ -314,4 +316,112 @@ def gen_problem(rng, big=False):
     meta["flags"] = flags
     L += inv + ["END"]
     meta["solns"] = solns
+    return {"db": DB, "input": "\n".join(L) + "\n", "meta": meta}
+
+
+REDOX_PAIRS = {"Fe": ("Fe(2)", "Fe(3)"), "S": ("S(6)", "S(-2)"), "C": ("C(4)", "C(-4)"), "N": ("N(5)", "N(3)"), "Mn": ("Mn(2)", "Mn(3)")}
+
+
+def gen_direct(rng):
+    """two (or three) waters written directly as SOLUTION blocks: final = initial + salts, with one or two redox elements given
+    by explicit valence states in every water; one valence state of the final water is off by a factor chosen relative to the
+    tight / loose limits declared in -balances (element name, valence-state name, per-solution lists, absolute limits)."""
+    glob = rng.choice([0.03, 0.05, 0.1])
+    base = {"Na": rng.uniform(0.3, 2), "Ca": rng.uniform(0.2, 1.5), "Mg": rng.uniform(0.1, 1), "K": rng.uniform(0.05, 0.3)}
+    alk = rng.uniform(0.3, 1.5)
+    els = rng.sample(["Fe", "S", "N", "Mn", "C"], rng.randint(1, 2))
+    if "C" in els and "S" in els:
+        els.remove("C")
+    val = {}
+    for el in els:
+        a, b = REDOX_PAIRS[el]
+        if el == "S":
+            val[a], val[b] = rng.uniform(0.1, 0.8), rng.uniform(0.01, 0.05)
+        elif el == "C":
+            val[a], val[b] = rng.uniform(0.5, 2.0), rng.uniform(0.01, 0.05)
+        else:
+            val[a], val[b] = rng.uniform(0.01, 0.06), rng.uniform(0.005, 0.03)
+    if "S" not in els:
+        base["S(6)"] = rng.uniform(0.05, 0.5)
+    salts = {"Halite": {"Na": 1, "Cl": 1}, "Sylvite": {"K": 1, "Cl": 1}}
+    used = {ph: rng.uniform(0.1, 1.0) for ph in rng.sample(list(salts), rng.randint(1, 2))}
+    nsol = rng.choice([2, 2, 3])
+    # limits: element-wide entry tighter or looser than the global one, sometimes a valence-state entry on top
+    bal, decl = [], {}
+    for el in els:
+        a, b = REDOX_PAIRS[el]
+        kind = rng.random()
+        tight = rng.choice([0.005, 0.01, 0.02])
+        loose = rng.choice([0.15, 0.2, 0.3])
+        lim = tight if kind < 0.6 else loose
+        lst = [lim] * rng.randint(1, nsol)
+        if rng.random() < 0.3 and len(lst) < nsol:
+            lst = [rng.choice([0.05, 0.1])] + lst
+        bal.append("    %s %s" % (el, " ".join(fmt(v) for v in lst)))
+        eff = (lst + [lst[-1]] * nsol)[:nsol]
+        decl[a] = decl[b] = eff
+        if rng.random() < 0.25:
+            v = rng.choice([0.01, 0.2])
+            bal.append("    %s %s" % (b if rng.random() < 0.7 else a, fmt(v)))
+    el = els[0]
+    a, b = REDOX_PAIRS[el]
+    target = b if rng.random() < 0.75 else a
+    lims = decl[target]
+    lo, hi = sorted([lims[0] + lims[-1], 2 * glob])
+    mode = rng.random()
+    if mode < 0.55:
+        off = rng.uniform(lo * 1.15, max(hi * 0.9, lo * 1.2))     # between the two limits
+    elif mode < 0.8:
+        off = rng.uniform(0.0, lo * 0.8)                           # inside both
+    else:
+        off = rng.uniform(hi * 1.3, hi * 2.5)                      # outside both
+    off *= rng.choice([1, -1])
+    L = ["TITLE C18 generated inverse problem (direct analyses, redox valence states)",
+         "SELECTED_OUTPUT 2", "  -reset false", "USER_PUNCH 2",
+         "  -headings sim water Alkalinity " + " ".join(TOTNAMES),
+         "  10 PUNCH SIM_NO, " + ", ".join(['TOT("water")', 'ALK*TOT("water")'] + ['TOT("%s")*TOT("water")' % n for n in TOTNAMES])]
+    ph = rng.uniform(6.5, 7.8)
+    pe = rng.uniform(0, 6)
+    for n in range(1, nsol + 1):
+        comp = dict(base)
+        comp.update(val)
+        final = n == nsol
+        if final:
+            for phn, amt in used.items():
+                for e, c in salts[phn].items():
+                    if e != "Cl":
+                        comp[e] = comp.get(e, 0) + c * amt
+            comp[target] = comp[target] * (1 + off)
+        elif n == 2:
+            for k in comp:
+                comp[k] *= rng.uniform(0.98, 1.02) if rng.random() < 0.3 else 1.0
+        L += ["SOLUTION %d" % n, "  units mmol/kgw", "  pH %s" % fmt(ph), "  pe %s" % fmt(pe)]
+        for k, v in comp.items():
+            L.append("  %s %s" % (k, fmt(v)))
+        if "C" not in els:
+            L.append("  Alkalinity %s" % fmt(alk))
+        L.append("  Cl 1 charge")
+    L.append("END")
+    cands = list(used) + rng.sample(["Gypsum", "Calcite", "Goethite", "Siderite", "O2(g)", "Pyrite", "CH4(g)", "Pyrolusite", "N2(g)"], rng.randint(0, 3))
+    rng.shuffle(cands)
+    inv = ["SELECTED_OUTPUT 2", "  -active false", "SELECTED_OUTPUT 1", "  -reset false", "  -inverse_modeling true",
+           "INVERSE_MODELING 1", "  -solutions " + " ".join(str(n) for n in range(1, nsol + 1)), "  -uncertainty %s" % fmt(glob), "  -phases"]
+    inv += ["    %s" % c for c in cands]
+    inv.append("  -balances")
+    inv += bal
+    for e in ["Na", "K", "Ca", "Mg", "S", "Cl", "Fe", "N", "Mn", "C"]:
+        covered = e in els or any(e in (POOL.get(c) or REDOX_POOL.get(c) or {}) for c in cands)
+        if not covered and (e in base or e == "Cl" or (e == "S" and "S(6)" in base)):
+            inv.append("    %s" % e)
+    flags = {}
+    if rng.random() < 0.4:
+        inv.append("  -range")
+        flags["range"] = True
+    if rng.random() < 0.3:
+        inv.append("  -minimal")
+        flags["minimal"] = True
+    L += inv + ["END"]
+    meta = {"scenario": "direct-redox", "redox": True, "unc": glob, "noisy": True, "flags": flags, "nphases": len(cands),
+            "noise": [(target, off, "between" if mode < 0.55 else ("inside" if mode < 0.8 else "outside"))],
+            "true_phases": used, "solns": list(range(1, nsol + 1)), "redox_elements": els}
     return {"db": DB, "input": "\n".join(L) + "\n", "meta": meta}
